@@ -50,6 +50,9 @@ type recProxy struct {
 	restores [][]byte
 	commits  int
 	states   []string
+	// Restore fails this many times before working (stateful sequences)
+	failRestores int
+	failed       int
 }
 
 func (p *recProxy) SubmitCh() chan []byte { return p.ch }
@@ -63,6 +66,12 @@ func (p *recProxy) CommitBlock(b hg.Block) (proxy.CommitResponse, error) {
 }
 func (p *recProxy) GetSnapshot(int) ([]byte, error) { return []byte("snap"), nil }
 func (p *recProxy) Restore(s []byte) error {
+	if p.failRestores > 0 {
+		// the application refuses the snapshot and keeps its state
+		p.failRestores--
+		p.failed++
+		return fmt.Errorf("restore refused by the application")
+	}
 	p.restores = append(p.restores, append([]byte{}, s...))
 	return nil
 }
